@@ -29,7 +29,7 @@ case "$ID" in
     ;;
 esac
 case "$ID" in
-  C09|C14|C16|C19)
+  C04|C08|C09|C14|C16|C19)
     if ! ( cd "$VERIF_REPO" && go build -tags verif -o "$VERIF_ROOT/bin/gobl" ./cmd/gobl ) 2> bin/.build.gobl.log; then
       echo "INCONCLUSIVE property=$ID reason=build-cli"; sed -n '1,30p' bin/.build.gobl.log; exit 2; fi
     ;;
